@@ -164,7 +164,9 @@ func preFacts(text string) [][]string {
 	var goNew []string
 	for name, rt := range zygo.GoStructRegistry.Userdef {
 		if goRegistered(rt) {
-			if !goBase[name] {
+			// a struct type registered from Go since the process started; the pointer and slice types that
+			// scripts derive from Go-registered types ("*snoopy") are no such registration
+			if !goBase[name] && !strings.HasPrefix(name, "*") && !strings.HasPrefix(name, "[") && !strings.HasPrefix(name, "(") {
 				goNew = append(goNew, name)
 			}
 			continue
@@ -227,11 +229,24 @@ func hostInit() {
 }
 
 // observe runs text in a fresh interpreter and captures stdout.
-func observe(text string) (obs any, pre [][]string) {
+//
+// between: an interpreter of ANOTHER kind is created (and never used) after the probing interpreter exists and
+// before it evaluates: 1 a sandboxed one, 2 one with a reduced function table (the tables that every
+// constructor sets up must not be shared with the interpreters that exist already).
+func observe(text string, between int) (obs any, pre [][]string) {
 	hostInit()
 	pre = preFacts(text)
 	env := setup()
 	defer env.Close()
+	switch between % 3 {
+	case 1:
+		o := zygo.NewZlispSandbox()
+		o.StandardSetup()
+		defer o.Close()
+	case 2:
+		o := zygo.NewZlispWithFuncs(map[string]zygo.ZlispUserFunction{"zzonly": zygo.FirstFunction, "aaonly": zygo.FirstFunction})
+		defer o.Close()
+	}
 	old := os.Stdout
 	r, w, err := os.Pipe()
 	if err != nil {
@@ -390,6 +405,10 @@ var determFixed = []string{
 	"(def before (len (typelist)))\n(hash a: 1)\n[before (len (typelist))]\n",
 	"(len (typelist))\n",
 	"(def tl (typelist))\n(aget tl 0)\n",
+	// infix forms: index, slice, dot path, assignment (the operator tables are set up by every constructor)
+	"(def a [10 20 30])\n{a[1] + a[2]}\n",
+	"(def a [10 20 30 40])\n{a[1:3]}\n{b = a[0] * 2 + a[3]}\nb\n",
+	"(def h (hash a: (hash b: [3 4]) d: 9))\n{h.a.b[1] + h.d}\n{x = 2 ** 3 - 1}\n(list x {x > 3 and x <= 7})\n",
 }
 
 // programs for a host that has not registered the demo Go types
@@ -686,7 +705,11 @@ func determWorker(c *common, mode string, order, poison int) int {
 			}
 		}
 		for k := 0; k < reps; k++ {
-			obs, pre := observe(cc.Text)
+			between := order // proc: the order number; seq: the run number
+			if mode == "seq" {
+				between = k
+			}
+			obs, pre := observe(cc.Text, between)
 			o.Obs = append(o.Obs, obs)
 			o.Pre = append(o.Pre, pre)
 			if mode == "seq" {
